@@ -10,14 +10,14 @@ let edges_of s =
         | _ -> failwith "edge") (String.split_on_char ',' s)
 let show_keys l = if l = [] then "none" else "cycle " ^ String.concat " " (List.map (fun k -> string_of_int (int_of_n k)) l)
 let show = function FcDone l -> show_keys l | FcOutOfFuel -> "OUTOFFUEL"
-let default_fuel = 200000
+let default_fuel = nat_of_int 200000     (* built once: a unary numeral *)
 let () =
   register "findcycle" (function
-      | [r; e] -> show (findcycle_names (edges_of e) (n_of_int (int_of_string r)) (nat_of_int default_fuel))
+      | [r; e] -> show (findcycle_names (edges_of e) (n_of_int (int_of_string r)) default_fuel)
       | [r; e; f] -> show (findcycle_names (edges_of e) (n_of_int (int_of_string r)) (nat_of_int (int_of_string f)))
       | _ -> "ERR args");
   register "findcycle_numeric" (function
-      | [r; e] -> show (findCycle N.ltb (edges_of e) (n_of_int (int_of_string r)) (nat_of_int default_fuel))
+      | [r; e] -> show (findCycle N.ltb (edges_of e) (n_of_int (int_of_string r)) default_fuel)
       | _ -> "ERR args");
   register "findcycle_ref" (function
       | [r; e] -> show_keys (fc_reference klt_name (edges_of e) (n_of_int (int_of_string r)))
